@@ -7,10 +7,6 @@
             ids = comma separated positions in the input ("-" when empty) *)
 open Winsort_x
 
-let rec pos_of_bits = function          (* most significant bit first, leading 1 consumed *)
-  | [] -> XH
-  | _ -> failwith "unused"
-
 (* positive from a list of bits, least significant first, last bit = 1 *)
 let rec pos_lsb = function
   | [] -> failwith "zero"
